@@ -41,10 +41,10 @@ def unitDays (u : TUnit) : Rat := (unitDays? u).getD 1
 inductive Err | value | key | type | other | unsupported
   deriving DecidableEq, Repr
 
-/-- a number as written (`q`) and as the float64 the code holds (`f`) -/
 /-- the error of a result, if any (used to state rejections) -/
 def err? {α} (r : Except Err α) : Option Err := match r with | .error e => some e | .ok _ => none
 
+/-- a number as written (`q`) and as the float64 the code holds (`f`) -/
 structure Num where
   q : Rat
   f : Rat
